@@ -1,6 +1,9 @@
 import PPLV.Lin.Decide
 import PPLV.Lin.Ops
 import PPLV.Lin.OpSpecs
+import PPLV.Lin.QuerySpecs
+import PPLV.Lin.QueryDim
+import PPLV.Lin.QueryCong
 
 /-!
 # C01 — a polyhedron answers every query from one point set, whatever its history
@@ -118,21 +121,92 @@ example : seg.sup ⟨[2], 1⟩ = .val 3 1 true ∧ seg.inf ⟨[2], 1⟩ = .val 1
     RefPoly.sup ⟨true, 1, [gtRow [-1] 1]⟩ ⟨[1], 0⟩ = .val 1 1 false ∧
     RefPoly.inf ⟨true, 1, [gtRow [-1] 1]⟩ ⟨[1], 0⟩ = .unbounded := by decide +kernel
 
-/-- `is_bounded()`, one direction only: an empty or bounded set is judged bounded.
-    Missing: the converse (`isBounded = true` ⇒ empty or bounded), which needs the theorem that a
-    polyhedron with trivial recession cone is bounded (Minkowski–Weyl); not proved here. -/
-theorem query_is_bounded_partial (p : RefPoly) (hp : WF p.n p.cs)
-    (h : sem p.cs = ∅ ∨ ∃ M : Rat, ∀ x ∈ sem p.cs, ∀ i < p.n, |x i| ≤ M) :
-    p.isBounded = true := isBounded_of_bounded p hp h
-
-example : seg.isBounded = true ∧ RefPoly.isBounded ⟨false, 1, [geRow [1] 0]⟩ = false := by
-  decide +kernel
-
 /-- point membership (`relation_with(point)`, `contains` of a point): the rational point
     `num/den` (coordinates beyond `num.length` are `0`) belongs to the set iff the judge says so. -/
 theorem point_membership (p : RefPoly) (num : List Int) (den : Int) (hd : 0 < den) :
     p.hasPoint num den = true ↔ ratPoint num den ∈ sem p.cs := hasPoint_iff p num den hd
 
 example : seg.hasPoint [1] 2 = true ∧ seg.hasPoint [3] 2 = false := by decide
+
+/-! ### boundedness, affine dimension, congruences, `constrains`, generators -/
+
+/-- `is_bounded()`: the oracle (`sup`/`inf` of every coordinate finite, decided by the proved
+    `supB`) answers `true` iff the set is empty or all its points lie within one common bound. -/
+theorem query_is_bounded_iff (p : RefPoly) (hp : WF p.n p.cs) :
+    p.isBounded = true ↔ sem p.cs = ∅ ∨ ∃ M : Rat, ∀ x ∈ sem p.cs, ∀ i < p.n, |x i| ≤ M :=
+  isBounded_iff p hp
+
+example : seg.isBounded = true ∧ RefPoly.isBounded ⟨false, 1, [geRow [1] 0]⟩ = false ∧
+    RefPoly.isBounded ⟨true, 1, [gtRow [1] 0, gtRow [-1] 1]⟩ = true := by
+  decide +kernel
+
+/-- `affine_dimension()`, two-sided: for a non-empty set and `d := p.affineDim` (Gaussian
+    elimination `eqFree` on the implicit equalities) there are `d + 1` points of the set that are
+    affinely independent — the only `lam` with `Σ lam = 0` and `Σ lam_k·x_k = 0` (on the
+    coordinates `< n`) is `0` — and affinely span it: every point of the set is `Σ mu_k·x_k`
+    with `Σ mu = 1`.  So they are an affine basis of the affine hull, whose dimension is
+    therefore exactly `d` (independence: `≥ d`, spanning: `≤ d`).  `lcomb lam xs = Σ_k lam_k·xs_k`. -/
+theorem query_affine_dimension_spec (p : RefPoly) (hp : WF p.n p.cs) (hne : (sem p.cs).Nonempty) :
+    ∃ xs : List Val, xs.length = p.affineDim + 1 ∧
+      (∀ x ∈ xs, x ∈ sem p.cs) ∧
+      (∀ lam : List Rat, lam.length = xs.length → lam.sum = 0 →
+        (∀ i < p.n, lcomb lam xs i = 0) → ∀ l ∈ lam, l = 0) ∧
+      (∀ y ∈ sem p.cs, ∃ mu : List Rat, mu.length = xs.length ∧ mu.sum = 1 ∧
+        ∀ i < p.n, y i = lcomb mu xs i) :=
+  affineDim_spec p hp hne
+
+/-- the empty set has affine dimension 0 (the library's convention) -/
+theorem query_affine_dimension_empty (p : RefPoly) (hp : WF p.n p.cs) (h : sem p.cs = ∅) :
+    p.affineDim = 0 := affineDim_empty p hp h
+
+example : RefPoly.affineDim ⟨false, 2, [geRow [1,0] 0, geRow [-1,0] 0]⟩ = 1 ∧
+    RefPoly.affineDim ⟨true, 2, [gtRow [1,0] 0]⟩ = 2 ∧ (emptyP false 2).affineDim = 0 := by
+  decide +kernel
+
+/-- `relation_with(congruence)` for a proper congruence `e ≡ 0 (mod m)`, `m > 0`: the two facts
+    (disjoint, included) are decided exactly, for closed and NNC polyhedra — no point of the set
+    has `e(x) ∈ mℤ`, resp. every point has. -/
+theorem query_relation_with_congruence_spec (p : RefPoly) (e : LinExpr) (m : Int) (hp : WF p.n p.cs)
+    (he : e.coeffs.length ≤ p.n) (hm : 0 < m) :
+    ((p.relCongruence e m).1 = true ↔ ∀ x ∈ sem p.cs, ¬ ∃ z : Int, e.val x = (m : Rat) * z) ∧
+    ((p.relCongruence e m).2 = true ↔ ∀ x ∈ sem p.cs, ∃ z : Int, e.val x = (m : Rat) * z) :=
+  relCongruence_spec p e m hp he hm
+
+example : seg.relCongruence ⟨[2], 1⟩ 2 = (false, false) ∧
+    RefPoly.relCongruence ⟨true, 1, [gtRow [1] 0, gtRow [-1] 1]⟩ ⟨[2], 0⟩ 2 = (true, false) := by
+  decide +kernel
+
+/-- `constrains(v)`: `true` iff the set is empty or cylindrification along `v` changes it … -/
+theorem query_constrains_iff (p : RefPoly) (v : Nat) (hp : WF p.n p.cs) :
+    p.constrains v = true ↔ sem p.cs = ∅ ∨ sem (p.unconstrain [v]).cs ≠ sem p.cs :=
+  constrains_iff p v hp
+
+/-- … equivalently: some point of the set leaves it when only coordinate `v` is changed -/
+theorem query_constrains_iff_update (p : RefPoly) (v : Nat) (hp : WF p.n p.cs) :
+    p.constrains v = true ↔ sem p.cs = ∅ ∨ ∃ x ∈ sem p.cs, ∃ t : Rat, x.update v t ∉ sem p.cs :=
+  constrains_iff_update p v hp
+
+example : RefPoly.constrains ⟨false, 2, [geRow [1,0] 0]⟩ 0 = true ∧
+    RefPoly.constrains ⟨false, 2, [geRow [1,0] 0]⟩ 1 = false := by decide +kernel
+
+/-- `relation_with(generator)`: `g` is subsumed iff the set is non-empty and — a point: belongs
+    to it; a closure point: every half-open segment from a point of the set towards it stays in
+    the set (it belongs to the topological closure); a ray: the set is closed under translation
+    by its non-negative multiples; a line: by all its multiples.  Strict rows are handled
+    exactly (the recession cone of a non-empty NNC polyhedron is that of its closure). -/
+theorem query_relation_with_generator_spec (p : RefPoly) (g : Gen) (hp : WF p.n p.cs) (hd : 0 < g.div) :
+    p.subsumes g = true ↔ (∃ x, x ∈ sem p.cs) ∧
+      match g.kind with
+      | .point => ratPoint g.coords g.div ∈ sem p.cs
+      | .cpoint => ∀ x ∈ sem p.cs, ∀ s : Rat, 0 < s → s ≤ 1 →
+          Val.seg s x (ratPoint g.coords g.div) ∈ sem p.cs
+      | .ray => ∀ x ∈ sem p.cs, ∀ t : Rat, 0 ≤ t → x.move t g.coords ∈ sem p.cs
+      | .line => ∀ x ∈ sem p.cs, ∀ t : Rat, x.move t g.coords ∈ sem p.cs :=
+  subsumes_spec p g hp hd
+
+example : RefPoly.subsumes ⟨true, 1, [gtRow [1] 0]⟩ ⟨.cpoint, [0], 1⟩ = true ∧
+    RefPoly.subsumes ⟨true, 1, [gtRow [1] 0]⟩ ⟨.point, [0], 1⟩ = false ∧
+    RefPoly.subsumes ⟨true, 1, [gtRow [1] 0]⟩ ⟨.ray, [1], 1⟩ = true ∧
+    RefPoly.subsumes ⟨true, 1, [gtRow [1] 0]⟩ ⟨.line, [1], 1⟩ = false := by decide +kernel
 
 end C01
